@@ -18,6 +18,14 @@ lean/DS/Ref/ItRef*.lean) and verifies it exactly for all operations in both dire
 certificate with index maps that the kernel checks (`checkEquiv`, one obligation per setting); `checkEquiv_sound` is the hand
 proof that an accepted certificate carries the one group onto the other.  A setting without a certificate is reported as
 `ittype:<number>` (replay stream "itequiv": the search is repeated on the tree under test), naming the type it IS a setting of.
+
+The tables survive use (section 7 below, replay stream "survive"): everything above looks at the tables as they are right after import.
+A history of public API calls that hand out the shared tabulated objects (GetSpaceGroup / FindSpaceGroup, CIF documents that resolve to a
+tabulated setting by symbol, number or operation list in table order and DECLARE disagreeing scalar symmetry items, expandPosition,
+GeneratorSite, ExpandAsymmetricUnit, SymmetryConstraints, isSpaceGroupLatPar, copies / pickles edited by their owner, structures read from
+CIF pickled and copied, PDFFitStructure reads) runs in a fresh interpreter beside the Lean builds; the state of all settings is taken after
+every call, the canonical serialisation is compared with the one the translator read, and the Python mirror of the metadata clauses is
+re-evaluated at the end.  The first call after which anything differs is the failing input (confirmed alone in another fresh interpreter).
 """
 import itertools
 import json
@@ -307,13 +315,639 @@ def census_oracle(sg, ref):
                     "{det,trace,m: count} is %r, No. %d has %r" % (sg.number % 1000, got, sg.number % 1000, want), "census": got, "expected": want}
 
 
+# ---- 7. the tables survive use ------------------------------------------------------------------------------
+# The kernel obligations and the oracles above look at the tables as they are right after import.  The same objects are
+# handed out by the public API for as long as the process lives: GetSpaceGroup / FindSpaceGroup return them, the CIF reader
+# resolves a file to them, the symmetry utilities work on them.  This phase exercises that API in a FRESH interpreter
+# (worker part of this file, `python -m harness.c03`), takes the state of all settings (every attribute, every operation,
+# what GetSpaceGroup returns for every number and name) after every call, and at the end recomputes the canonical
+# serialisation the translator's view was taken from and the Python mirror of the metadata clauses.  The first call after
+# which anything differs is the failing input (re-executed alone in another fresh interpreter to confirm).
+
+SURVIVE_FIXED = [1, 2, 5, 14, 15, 62, 88, 139, 143, 152, 164, 173, 186, 194, 195, 221, 225, 227]
+SURVIVE_WORDS = {
+    "TRICLINIC": ["monoclinic", "anorthic"], "MONOCLINIC": ["triclinic", "orthorhombic"], "ORTHORHOMBIC": ["monoclinic", "tetragonal"],
+    "TETRAGONAL": ["orthorhombic", "cubic"], "TRIGONAL": ["rhombohedral", "hexagonal"], "HEXAGONAL": ["trigonal", "rhombohedral"],
+    "CUBIC": ["tetragonal", "rhombohedral"]}
+
+
+def tables_canon(sgs_mod):
+    """canonical serialisation (values only, no object identities) of everything the tables say: per setting all attributes and
+    the bytes of every operation; -> (sha256 hex, number of settings)"""
+    import hashlib
+
+    h = hashlib.sha256()
+    n = 0
+    for g in sgs_mod.SpaceGroupList:
+        n += 1
+        d = vars(g)
+        h.update(repr([(k, repr(d[k])) for k in sorted(d) if k != "symop_list"]).encode("utf-8", "replace"))
+        ops = d.get("symop_list")
+        if isinstance(ops, (list, tuple)):
+            for o in ops:
+                try:
+                    h.update(b"R" + o.R.dtype.str.encode() + o.R.tobytes() + b"t" + o.t.dtype.str.encode() + o.t.tobytes())
+                except AttributeError:
+                    h.update(repr(o).encode("utf-8", "replace"))
+        else:
+            h.update(repr(ops).encode("utf-8", "replace"))
+        h.update(b"|")
+    return h.hexdigest(), n
+
+
+def survive_op_text(op):
+    """x,y,z text of a tabulated operation (entries -1, 0, 1; translations in 24ths)"""
+    rows = []
+    for i in range(3):
+        t = ""
+        for j, c in enumerate("xyz"):
+            v = int(round(float(op.R[i][j])))
+            if v:
+                t += ("+" if v > 0 else "-") + (c if abs(v) == 1 else "%d*%s" % (abs(v), c))
+        f = Fraction(float(op.t[i])).limit_denominator(24)
+        if f:
+            t += "+%d/%d" % (f.numerator, f.denominator)
+        rows.append(t.lstrip("+") or "0")
+    return ",".join(rows)
+
+
+def survive_cif(sg, way, declared, cell, other=None):
+    """CIF text that names the setting `sg` in one `way` and carries the scalar items `declared` (lines)"""
+    a, b, c, al, be, ga = cell
+    L = ["data_survive", "_cell_length_a %.6f" % a, "_cell_length_b %.6f" % b, "_cell_length_c %.6f" % c,
+         "_cell_angle_alpha %.5f" % al, "_cell_angle_beta %.5f" % be, "_cell_angle_gamma %.5f" % ga]
+    ops = list(sg.symop_list)
+    if way.endswith("reversed"):
+        ops = ops[:1] + ops[:0:-1]
+    oploop = ["loop_", "_symmetry_equiv_pos_as_xyz"] + ["'%s'" % survive_op_text(o) for o in ops]
+    oploop2 = ["loop_", "_space_group_symop_id", "_space_group_symop_operation_xyz"] + ["%d '%s'" % (i + 1, survive_op_text(o)) for i, o in enumerate(ops)]
+    if way == "number":
+        L.append("_symmetry_Int_Tables_number %d" % sg.number)
+    elif way == "number-new-tag":
+        L.append("_space_group_IT_number %d" % sg.number)
+    elif way == "hm":
+        L.append("_symmetry_space_group_name_H-M '%s'" % sg.short_name)
+    elif way == "hm-full":
+        L.append("_space_group_name_H-M_alt '%s'" % sg.pdb_name)
+    elif way in ("ops", "ops-reversed"):
+        L += oploop
+    elif way == "ops-new-tag":
+        L += oploop2
+    elif way == "ops+other-identifiers" and other is not None:
+        # the operations name the setting; number and symbol of ANOTHER setting are declared beside them
+        L += ["_symmetry_Int_Tables_number %d" % (other.number % 1000), "_symmetry_space_group_name_H-M '%s'" % other.short_name] + oploop
+    elif way == "ops+own-identifiers":
+        L += ["_symmetry_Int_Tables_number %d" % (sg.number % 1000), "_symmetry_space_group_name_H-M '%s'" % sg.pdb_name] + oploop
+    else:
+        raise ValueError(way)
+    L += list(declared)
+    L += ["loop_", "_atom_site_label", "_atom_site_type_symbol", "_atom_site_fract_x", "_atom_site_fract_y", "_atom_site_fract_z",
+          "_atom_site_U_iso_or_equiv", "C1 C 0.1031 0.2172 0.3393 0.01", "O1 O 0 0 0 0.02"]
+    return "\n".join(L) + "\n"
+
+
+def survive_calls(ck, sgs_mod):
+    """the history of API calls (JSON-able descriptors; CIF texts are rendered here, the worker only executes)"""
+    import random
+
+    rng = random.Random(ck.seed * 7919 + 3)
+    quick = ck.tier == "quick"
+    lst = list(sgs_mod.SpaceGroupList)
+    bynum = {}
+    for i, g in enumerate(lst):
+        bynum.setdefault(g.number, i)
+    chosen = [bynum[n] for n in SURVIVE_FIXED if n in bynum]
+    # every rhombohedral-lattice setting (hexagonal and rhombohedral axes): files call them `rhombohedral`, the tables TRIGONAL
+    chosen += [i for i, g in enumerate(lst) if isinstance(g.number, int) and g.number % 1000 in (146, 148, 155, 160, 161, 166, 167)]
+    rest = [i for i in range(len(lst)) if i not in set(chosen)]
+    chosen += rng.sample(rest, min(len(rest), 14)) if quick else rest
+    seen = set()
+    chosen = [i for i in chosen if not (i in seen or seen.add(i))]
+    calls = []
+    tags = ["_symmetry_cell_setting", "_space_group_crystal_system"]
+    halls = ["-P 1", "P 2ac 2ab", "-R 3 2\"c", "R 3 -2\"c"]
+    vias = ["P_cif", "readStr", "pdffit", "file", "auto", "pdffit-file"]
+    k = 0
+    for i in chosen:
+        g = lst[i]
+        nops = len(g.symop_list)
+        ident = {"pos": i, "number": g.number, "short_name": g.short_name}
+        try:
+            cell = cell_of_metric(invariant_metric(g, G0))
+        except Exception:  # noqa: BLE001  (operations that are not a group: the oracles above report it)
+            cell = (5.1, 6.2, 7.3, 90.0, 90.0, 90.0)
+        words = SURVIVE_WORDS.get(g.crystal_system, ["triclinic", "cubic"])
+        own = str(g.crystal_system)
+        # ---- direct API calls on the tabulated object
+        calls.append(dict(ident, op="api", what="GetSpaceGroup", ids=[g.number, str(g.number), g.short_name, g.pdb_name,
+                                                                          " " + g.short_name.lower() + " ", g.pdb_name.upper()]))
+        calls.append(dict(ident, op="api", what="FindSpaceGroup", orders=["same", "rounded4", "reversed", "reversed-shuffle"]))
+        calls.append(dict(ident, op="api", what="iterate", vec=[0.1031, 0.2172, 0.3393]))
+        calls.append(dict(ident, op="api", what="isSpaceGroupLatPar", cells=[list(cell), [5.1, 6.2, 7.3, 81.0, 97.0, 103.0], [5.1, 5.1, 5.1, 90.0, 90.0, 90.0]]))
+        calls.append(dict(ident, op="api", what="copies", how=["copy", "deepcopy", "pickle0", "pickle2", "pickle5"]))
+        if nops <= 96 or not quick:
+            calls.append(dict(ident, op="api", what="expand", xyz=[[0.1031, 0.2172, 0.3393], [0, 0, 0], [0.5, 0.5, 0.5], [0.25, 0.25, 0.25]]))
+        if nops <= 48 or not quick:
+            calls.append(dict(ident, op="api", what="constraints", xyz=[[0.1031, 0.2172, 0.3393], [0, 0, 0], [0.25, 0.25, 0.25]]))
+        # ---- CIF documents that resolve to the tabulated object and declare scalar items that disagree with it
+        ways = ["hm", "hm-full"]
+        if isinstance(g.number, int) and bynum.get(g.number) == i:
+            ways += ["number", "number-new-tag"]
+        if nops <= 96 or not quick:
+            ways += ["ops", "ops+other-identifiers", "ops+own-identifiers", "ops-new-tag"]
+            if nops <= 24:
+                ways.append("ops-reversed")
+        if quick:
+            # the three branches of the reader (symbol, number, operation list) always, two of their variants in rotation
+            main3 = [w for w in ("hm", "number", "ops") if w in ways]
+            var = [w for w in ways if w not in main3]
+            ways = main3 + [var[(i + j) % len(var)] for j in range(min(2, len(var)))]
+        other = lst[(i + 37) % len(lst)]
+        decls = [["%s %s" % (tags[0], words[0])], ["%s %s" % (tags[1], words[1])],
+                 ["%s %s" % (tags[0], words[1].upper()), "%s '%s'" % (tags[1], words[0].capitalize())],
+                 ["%s %s" % (tags[k % 2], own.capitalize())], ["%s '%s'" % (tags[(k + 1) % 2], own.lower() + " ")],
+                 ["_symmetry_space_group_name_Hall '%s'" % halls[k % len(halls)]],
+                 ["_space_group_name_Hall '%s'" % halls[(k + 1) % len(halls)], "%s ?" % tags[0], "%s ." % tags[1]],
+                 ["_cell_formula_units_Z 7", "_symmetry_cell_setting '%s'" % words[0], "_space_group_crystal_system '%s'" % words[0]],
+                 []]
+        thens = [["latpar"], ["pickle-stru", "copy-stru"], ["write-cif"], ["copy-sg-edit"], ["expand"], ["reparse"], ["pickle-sg"], ["latpar", "constraints"]]
+        for wi, way in enumerate(ways):
+            for di, decl in enumerate(decls):
+                k += 1
+                # quick: every way of every setting meets one of the two disagreeing declarations (in turn); the other
+                # combinations in rotation
+                if quick and ((di < 2 and (wi + i) % 2 != di) or (di >= 2 and (wi + di + i) % 7)):
+                    continue
+                if not quick and di >= 2 and (wi + di + i) % 3:
+                    continue
+                then = thens[k % len(thens)]
+                if nops > 48 and quick:
+                    then = [t_ for t_ in then if t_ not in ("constraints", "expand")]
+                calls.append(dict(ident, op="cif", way=way, via=vias[k % len(vias)], declared=decl, then=then,
+                                  text=survive_cif(g, way, decl, cell, other)))
+    return calls, chosen
+
+
+def survive_start(ck, sgs_mod):
+    """start the worker(s) on the history (they run beside the Lean builds); -> handle for survive_finish.
+    Quick tier: one history in one interpreter; thorough tier: the settings are dealt out to 6 independent histories."""
+    import shutil
+    import subprocess
+    import tempfile
+
+    calls, chosen = survive_calls(ck, sgs_mod)
+    nw = 1 if ck.tier == "quick" else 6
+    order = []
+    for c in calls:
+        if c["pos"] not in order:
+            order.append(c["pos"])
+    parts = [[c for c in calls if order.index(c["pos"]) % nw == w] for w in range(nw)]
+    os.makedirs(common.WORK, exist_ok=True)
+    workers = []
+    for part in parts:
+        wd = tempfile.mkdtemp(prefix="c03_survive_", dir=common.WORK)
+        jobf = os.path.join(wd, "job.json")
+        with open(jobf, "w") as f:
+            json.dump({"cwd": wd, "calls": part, "mirror_before": False}, f)
+        proc = subprocess.Popen([common.PY, "-m", "harness.c03", jobf], cwd=VERIF, stdout=subprocess.PIPE, stderr=subprocess.PIPE, text=True)
+        workers.append({"proc": proc, "wd": wd, "calls": part})
+    return {"workers": workers, "chosen": chosen, "ncalls": len(calls), "rmtree": shutil.rmtree}
+
+
+def survive_run(calls, mirror_before=True, timeout=3000):
+    """run a history in a fresh interpreter and wait for it"""
+    import shutil
+    import subprocess
+    import tempfile
+
+    os.makedirs(common.WORK, exist_ok=True)
+    wd = tempfile.mkdtemp(prefix="c03_survive_", dir=common.WORK)
+    try:
+        jobf = os.path.join(wd, "job.json")
+        with open(jobf, "w") as f:
+            json.dump({"cwd": wd, "calls": calls, "mirror_before": mirror_before}, f)
+        p = subprocess.run([common.PY, "-m", "harness.c03", jobf], cwd=VERIF, capture_output=True, text=True, timeout=timeout)
+        if p.returncode != 0:
+            raise common.Broken("C03 survive worker failed: " + p.stderr[-1500:])
+        return json.loads(p.stdout)
+    finally:
+        shutil.rmtree(wd, ignore_errors=True)
+
+
+def call_text(c):
+    if c.get("op") == "cif":
+        return "read a CIF naming #%s %s by %s and declaring %r through %s, then %s" % (
+            c.get("number"), c.get("short_name"), c.get("way"), c.get("declared"), c.get("via"), "/".join(c.get("then") or ["nothing"]))
+    return "%s on the tabulated #%s %s" % (c.get("what"), c.get("number"), c.get("short_name"))
+
+
+def survive_finish(ck, h, import_canon, import_bad):
+    """collect the worker(s); every difference is a failure with the (minimal) history as replay"""
+    results = []
+    try:
+        for w in h["workers"]:
+            out, err = w["proc"].communicate(timeout=6000)
+            if w["proc"].returncode != 0:
+                raise common.Broken("C03 survive worker failed: " + err[-1500:])
+            results.append((w["calls"], json.loads(out)))
+    finally:
+        survive_cleanup(h)
+    outcomes = {}
+    for _calls, res in results:
+        for k_, v_ in res["outcomes"].items():
+            outcomes[k_] = outcomes.get(k_, 0) + v_
+    ncalls = sum(len(c) for c, _ in results)
+    cov = {"settings_exercised": len(h["chosen"]), "histories": len(results), "calls": ncalls,
+           "cif_documents": sum(1 for calls, _ in results for c in calls if c["op"] == "cif"),
+           "cif_resolved_to_the_tabulated_object": sum(r["shared"] for _, r in results),
+           "cif_resolved_to_a_copy": sum(r["copied"] for _, r in results),
+           "outcomes": dict(sorted(outcomes.items())), "snapshots": sum(r["snapshots"] for _, r in results),
+           "worker_s": [r["seconds"] for _, r in results], "state_changes": sum(len(r["changes"]) for _, r in results),
+           "canonical_sha256": import_canon[0][:16]}
+    ck.coverage["survive_use"] = cov
+    ck.coverage["evaluations"] += ncalls
+    ck.coverage["traces_validated_against_impl"] += cov["snapshots"]
+    reported = set()
+    todo = []
+    known_bad = {(b["number"], c) for b in import_bad for c in b["failed"]}
+    for calls, res in results:
+        if res["canon_start"] != list(import_canon):
+            ck.fail("table-import-unstable", "two fresh imports of the space-group tables differ: %s here, %s in a second interpreter" % (
+                import_canon[0][:16], res["canon_start"][0][:16]), {"kind": "history", "stream": "survive", "calls": []}, no_failing_input=True)
+        for chg in res["changes"]:
+            d0 = chg["diff"][0] if chg["diff"] else {"number": "?", "field": "?"}
+            fkey = d0.get("field")
+            if fkey in reported or len(todo) >= 3:
+                continue
+            reported.add(fkey)
+            todo.append(("table-modified-by-use:%s:%s" % (d0.get("number"), fkey), calls, chg, d0))
+        # the end state against the state the translator (and so the kernel) saw, and the mirror of the metadata clauses on it
+        if not res["changes"] and res["canon_end"] != res["canon_start"]:
+            ck.fail("table-modified-by-use:end-state", "the serialisation of the tables after the history differs from the one before it although "
+                    "no single call changed the observed state", {"kind": "history", "stream": "survive", "calls": calls})
+        for m in res["mirror_end"]:
+            if (m["number"], m["component"]) in known_bad or res["changes"]:
+                continue
+            ck.fail("table-modified-by-use:%s:%s" % (m["number"], m["component"]),
+                    "after the history the metadata of setting #%s no longer agree with its operations: %s" % (m["number"], m["why"]),
+                    {"kind": "history", "stream": "survive", "setting": m["number"], "calls": calls, "detail": m})
+    for key, calls, chg, d0 in todo:
+        i = chg["call"]
+        hist = [calls[i]]
+        alone = survive_run(hist, mirror_before=False)
+        if not (alone["changes"] or alone["canon_start"] != alone["canon_end"]):
+            hist = calls[:i + 1]       # the call needs what went before it
+        ck.fail(key, "the tabulated setting #%s is no longer what the table files define: %s %s -> %s after: %s%s" % (
+            d0.get("number"), d0.get("field"), d0.get("old"), d0.get("new"), call_text(calls[i]),
+            "" if len(hist) == 1 else " (call %d of the history)" % (i + 1)),
+            {"kind": "history", "stream": "survive", "setting": d0.get("number"), "calls": hist, "diff": chg["diff"][:10],
+             "outcome": chg.get("outcome"), "history_length": len(hist)})
+    return results
+
+
+def survive_cleanup(h):
+    for w in h.get("workers", []):
+        if w["proc"].poll() is None:
+            w["proc"].kill()
+        h["rmtree"](w["wd"], ignore_errors=True)
+
+
+# ---- worker part (fresh interpreter: `python -m harness.c03 job.json`) ---------------------------------------
+
+def _survive_worker(job):
+    import copy
+    import pickle
+    import time
+
+    t0 = time.time()
+    common.use_repo()
+    os.chdir(job["cwd"])
+    import numpy
+
+    import diffpy.structure.spacegroups as sgs
+    from diffpy.structure import PDFFitStructure, Structure, loadStructure
+    from diffpy.structure.parsers import getParser
+    from diffpy.structure.spacegroups import FindSpaceGroup, GetSpaceGroup, SymOp
+    from diffpy.structure.symmetryutilities import (ExpandAsymmetricUnit, GeneratorSite, SymmetryConstraints, expandPosition,
+                                                    isSpaceGroupLatPar)
+
+    assert os.path.realpath(sgs.__file__).startswith(os.path.realpath(common.REPO)), sgs.__file__
+    table = list(sgs.SpaceGroupList)      # the objects as listed at import
+    lookups = []
+    for g in table:
+        for idn in (getattr(g, "number", None), getattr(g, "short_name", None), getattr(g, "pdb_name", None)):
+            lookups.append(idn)
+
+    def state():
+        out = []
+        cur = sgs.SpaceGroupList
+        out.append((id(cur), len(cur)))
+        for g in cur:
+            d = vars(g)
+            ops = d.get("symop_list")
+            try:
+                ov = (id(ops), tuple([(id(o), o.R.tobytes(), o.t.tobytes()) for o in ops]))
+            except (AttributeError, TypeError):
+                ov = (id(ops), repr(ops)[:200])
+            out.append((id(g), tuple([(k, repr(v)) for k, v in sorted(d.items()) if k != "symop_list"]), ov))
+        lk = []
+        for idn in lookups:
+            try:
+                lk.append(id(GetSpaceGroup(idn)))
+            except Exception as e:  # noqa: BLE001
+                lk.append(type(e).__name__)
+        out.append(tuple(lk))
+        return out
+
+    def diff(a, b):
+        res = []
+        if a[0] != b[0]:
+            res.append({"number": "list", "field": "SpaceGroupList", "old": "%d entries" % a[0][1], "new": "%d entries%s" % (
+                b[0][1], "" if a[0][0] == b[0][0] else " (another list object)")})
+        for pos, (x, y) in enumerate(zip(a[1:-1], b[1:-1])):
+            if x == y:
+                continue
+            num = dict(x[1]).get("number", "?")
+            if x[0] != y[0]:
+                res.append({"pos": pos, "number": num, "field": "entry", "old": "object listed at import", "new": "another object"})
+            dx, dy = dict(x[1]), dict(y[1])
+            for k in sorted(set(dx) | set(dy)):
+                if dx.get(k) != dy.get(k):
+                    res.append({"pos": pos, "number": num, "field": k, "old": dx.get(k, "<absent>"), "new": dy.get(k, "<absent>")})
+            if x[2] != y[2]:
+                ox, oy = x[2], y[2]
+                if isinstance(ox[1], tuple) and isinstance(oy[1], tuple):
+                    if len(ox[1]) != len(oy[1]):
+                        what = ("%d operations" % len(ox[1]), "%d operations" % len(oy[1]))
+                    else:
+                        kk = [j for j, (p, q) in enumerate(zip(ox[1], oy[1])) if p[1:] != q[1:]]
+                        if kk:
+                            what = ("operation %d as tabulated" % kk[0], "other values (%d operation(s) differ)" % len(kk))
+                        elif ox[0] != oy[0]:
+                            what = ("list object of the table", "another list object with the same values")
+                        else:
+                            what = ("operation objects of the table", "other operation objects with the same values")
+                else:
+                    what = (str(ox[1])[:60], str(oy[1])[:60])
+                res.append({"pos": pos, "number": num, "field": "symop_list", "old": what[0], "new": what[1]})
+            if len(res) >= 20:
+                break
+        if a[-1] != b[-1]:
+            kk = [j for j, (p, q) in enumerate(zip(a[-1], b[-1])) if p != q]
+            res.append({"number": repr(lookups[kk[0]]), "field": "GetSpaceGroup", "old": "the setting listed first under this identifier",
+                        "new": "another object / %s (%d identifier(s) differ)" % (b[-1][kk[0]] if isinstance(b[-1][kk[0]], str) else "object", len(kk))})
+        return res
+
+    def mirror():
+        sys.path.insert(0, VERIF)
+        from translate import tables
+
+        bad = []
+        for g in sgs.SpaceGroupList:
+            try:
+                ops = [tables.op_to_ints(o) for o in g.symop_list]
+                if g.crystal_system not in tables.SYS:
+                    raise ValueError("unknown crystal_system %r" % (g.crystal_system,))
+                r = tables.mirror_checks(g, ops, tables.make_cert(ops))
+                for comp, (ok_, why) in r.items():
+                    if not ok_:
+                        bad.append({"number": g.number, "component": comp, "why": why})
+            except Exception as e:  # noqa: BLE001
+                bad.append({"number": getattr(g, "number", "?"), "component": "untranslatable", "why": "%s: %s" % (type(e).__name__, e)})
+        return bad
+
+    counts = {"shared": 0, "copied": 0}
+    outcomes = {}
+
+    def note(k):
+        outcomes[k] = outcomes.get(k, 0) + 1
+
+    def the_group(c):
+        pos = c.get("pos")
+        if isinstance(pos, int) and 0 <= pos < len(table):
+            return table[pos]
+        return GetSpaceGroup(c["number"])
+
+    def do_api(c):
+        g = the_group(c)
+        what = c["what"]
+        if what == "GetSpaceGroup":
+            for idn in c["ids"]:
+                try:
+                    r = GetSpaceGroup(idn)
+                    note("GetSpaceGroup:" + ("same-object" if r is g else "other-setting"))
+                except ValueError:
+                    note("GetSpaceGroup:ValueError")
+        elif what == "FindSpaceGroup":
+            for order in c["orders"]:
+                if order == "same":
+                    mine = list(g.symop_list)
+                elif order == "rounded4":
+                    mine = [SymOp(numpy.array(o.R, dtype=float), numpy.round(numpy.array(o.t, dtype=float), 4)) for o in g.symop_list]
+                else:
+                    mine = [SymOp(numpy.array(o.R, dtype=float), numpy.array(o.t, dtype=float)) for o in g.symop_list]
+                    mine = mine[:1] + mine[:0:-1]
+                try:
+                    r = FindSpaceGroup(mine, shuffle=order.endswith("shuffle"))
+                    note("FindSpaceGroup:%s:%s" % (order, "tabulated-object" if any(r is t_ for t_ in table) else "copy"))
+                    if not any(r is t_ for t_ in table):
+                        # the caller owns the copy it was given: it may rename it and give it other operations
+                        r.short_name = "mine"
+                        r.crystal_system = "MINE"
+                        r.number = -1
+                        r.symop_list = mine[:1]
+                except ValueError:
+                    note("FindSpaceGroup:%s:ValueError" % order)
+                # the caller owns its list
+                mine.reverse()
+                del mine[1:]
+        elif what == "iterate":
+            v = numpy.array(c["vec"], dtype=float)
+            n = 0
+            for o in g.iter_symops():
+                str(o)
+                o.is_identity()
+                o == o      # noqa: B015
+                n += len(o(v))
+            list(g.iter_equivalent_positions(v))
+            repr(g)
+            for nm in (g.short_name, g.pdb_name, g.number, "nonsense", g.point_group_name):
+                g.check_group_name(nm)
+            note("iterate")
+        elif what == "isSpaceGroupLatPar":
+            for cell in c["cells"]:
+                note("isSpaceGroupLatPar:%s" % isSpaceGroupLatPar(g, *cell))
+        elif what == "copies":
+            for how in c["how"]:
+                if how == "copy":
+                    r = copy.copy(g)
+                elif how == "deepcopy":
+                    r = copy.deepcopy(g)
+                else:
+                    r = pickle.loads(pickle.dumps(g, int(how[6:])))
+                # the copy belongs to the caller (attributes only; a shallow copy shares the operation list object)
+                r.short_name = "mine"
+                r.crystal_system = "MINE"
+                r.pdb_name = "m i n e"
+                r.number = -1
+                r.num_sym_equiv = 0
+                r.symop_list = list(r.symop_list)[:1]
+                if how != "copy":
+                    r.symop_list[0].t[:] = 0.5
+                note("copies:" + how)
+        elif what == "expand":
+            for xyz in c["xyz"]:
+                v = numpy.array(xyz, dtype=float)
+                pos, pops, mult = expandPosition(g, v)
+                pos[0][:] = 9.0              # results belong to the caller
+                pops[0].reverse()
+                gs = GeneratorSite(g, v)
+                gs.positionFormula(gs.xyz)
+                gs.UFormula(gs.xyz)
+                eau = ExpandAsymmetricUnit(g, [v, v * 0.5], [numpy.identity(3) * 0.01, numpy.identity(3) * 0.02])
+                eau.expandedpos[0][0][:] = 9.0
+                note("expand")
+        elif what == "constraints":
+            pts = numpy.array(c["xyz"], dtype=float)
+            sc_ = SymmetryConstraints(g, pts, [numpy.identity(3) * 0.01] * len(pts))
+            sc_.posparSymbols()
+            sc_.posparValues()
+            sc_.positionFormulas()
+            sc_.positionFormulasPruned()
+            sc_.UparSymbols()
+            sc_.UFormulas()
+            sc_.UFormulasPruned()
+            note("constraints")
+        else:
+            raise ValueError("unknown api call %r" % (what,))
+
+    def do_cif(c):
+        text = c["text"]
+        via = c["via"]
+        p = None
+        if via == "P_cif":
+            p = getParser("cif")
+            s = p.parse(text)
+        elif via == "readStr":
+            s = Structure()
+            p = s.readStr(text, "cif")
+        elif via == "auto":
+            s = Structure()
+            p = s.readStr(text)
+        elif via == "pdffit":
+            s = PDFFitStructure()
+            p = s.readStr(text, "cif")
+        else:
+            with open("survive.cif", "w") as f:
+                f.write(text)
+            if via == "file":
+                s = loadStructure("survive.cif")
+                p = None
+            else:
+                s = PDFFitStructure()
+                p = s.read("survive.cif", "cif")
+        sg = getattr(p, "spacegroup", None)
+        if p is not None:
+            if any(sg is t_ for t_ in table):
+                counts["shared"] += 1
+            else:
+                counts["copied"] += 1
+        for t_ in c.get("then") or []:
+            if sg is None and t_ not in ("pickle-stru", "copy-stru", "write-cif"):
+                sg = the_group(c)
+            if t_ == "latpar":
+                isSpaceGroupLatPar(sg, *s.lattice.abcABG())
+            elif t_ == "pickle-stru":
+                for proto in (0, 2, pickle.HIGHEST_PROTOCOL):
+                    s2 = pickle.loads(pickle.dumps(s, proto))
+                    s2[0].xyz[:] = 0.0
+            elif t_ == "copy-stru":
+                s3 = copy.copy(s)
+                s4 = copy.deepcopy(s)
+                s3.title = "mine"
+                s4[0].xyz[:] = 0.0
+            elif t_ == "write-cif":
+                s.writeStr("cif")
+            elif t_ == "copy-sg-edit":
+                r = copy.copy(sg)
+                r.crystal_system = "MINE"
+                r.short_name = "mine"
+                r.symop_list = list(r.symop_list)[:1]
+            elif t_ == "pickle-sg":
+                r = pickle.loads(pickle.dumps(sg))
+                r.crystal_system = "MINE"
+                r.symop_list[0].t[:] = 0.25
+            elif t_ == "expand":
+                expandPosition(sg, numpy.array([0.1031, 0.2172, 0.3393]))
+                GeneratorSite(sg, numpy.array([0.0, 0.0, 0.0]))
+            elif t_ == "constraints":
+                SymmetryConstraints(sg, numpy.array([a.xyz for a in s[:3]]))
+            elif t_ == "reparse" and p is not None:
+                p.parse(text)
+                p.parse(text.replace("data_survive", "data_again"))
+        note("cif:%s:%s" % (c["way"], "ok"))
+
+    start = state()
+    canon_start = list(tables_canon(sgs))
+    mirror_start = mirror() if job.get("mirror_before") else None
+    prev = start
+    changes = []
+    nsnap = 1
+    for i, c in enumerate(job["calls"]):
+        outcome = "ok"
+        try:
+            if c["op"] == "cif":
+                do_cif(c)
+            else:
+                do_api(c)
+        except Exception as e:  # noqa: BLE001  (judged by the state only; the other properties judge the results)
+            outcome = "%s: %s" % (type(e).__name__, str(e)[:120])
+            note("%s:%s" % (c.get("what") or "cif:" + c.get("way", "?"), type(e).__name__))
+        cur = state()
+        nsnap += 1
+        if cur != prev:
+            if len(changes) < 200:
+                changes.append({"call": i, "diff": diff(prev, cur), "outcome": outcome})
+            prev = cur
+    canon_end = list(tables_canon(sgs))
+    mirror_end = mirror()
+    return {"canon_start": canon_start, "canon_end": canon_end, "changes": changes, "mirror_start": mirror_start, "mirror_end": mirror_end,
+            "shared": counts["shared"], "copied": counts["copied"], "outcomes": dict(sorted(outcomes.items())), "snapshots": nsnap,
+            "seconds": round(time.time() - t0, 2)}
+
+
+def replay_survive(r):
+    res = survive_run(r.get("calls") or [], mirror_before=True)
+    for chg in res["changes"]:
+        print("after call %d (%s): %s" % (chg["call"] + 1, call_text((r.get("calls") or [])[chg["call"]]), chg["diff"][:3]))
+    new_bad = [m for m in res["mirror_end"] if m not in (res["mirror_start"] or [])]
+    print("tables serialised before / after the history: %s / %s" % (res["canon_start"][0][:16], res["canon_end"][0][:16]))
+    print("metadata clauses that fail after the history and held before it:", new_bad[:5])
+    return 1 if (res["changes"] or res["canon_start"] != res["canon_end"] or new_bad) else 0
+
+
+
 def run(ck):
+    holder = {}
+    try:
+        _run(ck, holder)
+    finally:
+        if holder.get("survive") is not None:
+            survive_cleanup(holder["survive"])
+
+
+def _run(ck, holder):
     sys.path.insert(0, VERIF)
     from translate import tables
 
     rep = tables.main(GEN, os.path.join(GEN, "tables_report.json"))
     import diffpy.structure.spacegroups as sgs
     from diffpy.structure.symmetryutilities import isSpaceGroupLatPar
+
+    # the state of the tables the translator has just read (= what the kernel obligations below are about), and the worker
+    # that uses the library in a fresh interpreter meanwhile (section 7; collected at the end)
+    import_canon = tables_canon(sgs)
+    holder["survive"] = survive_start(ck, sgs)
 
     bypos = {i: g for i, g in enumerate(sgs.SpaceGroupList)}
     nset = len(sgs.SpaceGroupList)
@@ -326,6 +960,9 @@ def run(ck):
         "recomputed by an independent Python oracle on every setting; "
         "every setting certified affinely equivalent (det P > 0) to the frozen reference setting of number %% 1000 by an exactly "
         "verified (P, p, index maps) certificate (harness/c03_equiv.py); "
+        "tables survive use: a history of public API calls on the shared tabulated objects (look-ups, CIF documents resolving to them while "
+        "declaring disagreeing cell setting / crystal system / Hall / number items, symmetry utilities, copies and pickles edited by the caller) in a "
+        "fresh interpreter, state of all settings compared after every call and with the translator's serialisation at the end; "
         "distinct_nontrivial = settings with more than one operation" % (nset, len(SHAPES)))
     # 1. Lean obligations (group/metadata certificates, and the lattice-rule certificates of C03b)
     from translate import latpar
@@ -580,6 +1217,11 @@ def run(ck):
                      "detail": bad})
             break
     ck.coverage["evaluations"] += len(used)
+    # 7. the same question for the whole public API, in a fresh interpreter, with the state taken after every call
+    survive_finish(ck, holder["survive"], import_canon, rep["bad"])
+    if tables_canon(sgs) != import_canon:
+        ck.fail("table-modified-by-use:check-process", "the tables in the checking process itself differ from their state at import after the "
+                "oracles of this check have used them", {"kind": "history", "stream": "survive", "calls": []}, no_failing_input=True)
     ck.coverage["samples"] = [
         {"obligation": "theorem DS.Gen.sg225_ok : checkSG sg225 sg225c = true := by decide +kernel"},
         {"obligation": "theorem DS.Gen.sg76_type : checkScrew sg76 sg76_sc = true := by decide +kernel"},
@@ -595,7 +1237,10 @@ def run(ck):
                                     "checked to be in sync)",
                                     "harness/c03_equiv.json: operation lists of the 230 standard settings frozen from the pinned tree "
                                     "(reference data; committed, never written at run time)"]
-    ck.assumptions += ["lattice-compatibility clause is decided by the implementation-side exact oracle on the group-averaged metric "
+    ck.assumptions += ["that the tables stay what the kernel checked while the library is used is established by the exercised history only "
+                       "(quick: 46 settings, every rhombohedral-lattice setting among them; thorough: all settings), not by a proof over the "
+                       "library's code",
+                       "lattice-compatibility clause is decided by the implementation-side exact oracle on the group-averaged metric "
                        "(Lean theorem latpar_complete not yet part of the obligations)",
                        "IT number is checked at the level of crystal class + centring + order + rotation/screw and mirror/glide census "
                        "per coset of the translation group (kernel-checked per setting, DS.Props.C03c), and by an explicit affine "
@@ -629,6 +1274,8 @@ def thorough(ck):
 def replay(path):
     common.use_repo()
     r = json.load(open(path))
+    if r.get("stream") == "survive":
+        return replay_survive(r)
     import diffpy.structure.spacegroups as sgs
     from diffpy.structure.symmetryutilities import isSpaceGroupLatPar
 
@@ -679,3 +1326,9 @@ def replay(path):
         meta = {"untranslatable": str(e)}
     print("metadata / certificate checks:", meta)
     return 1 if (bad or lat or meta) else 0
+
+
+if __name__ == "__main__":
+    _job = json.load(open(sys.argv[1]))
+    json.dump(_survive_worker(_job), sys.stdout)
+    sys.exit(0)
